@@ -499,6 +499,10 @@ func (ex *Exec) builtin(st *State, b *ssa.Builtin, args []Value, x *ssa.Call) Va
 			}
 			return r
 		case *MapVal:
+			// engine-level map with pairwise distinct keys (driver invariant) and no deletions
+			if len(a.Alts) == 1 && a.Alts[0].O != nil {
+				return IntLit(int64(len(ex.mapContent(st, a.Alts[0].O).Ents)))
+			}
 			panic(unsupported("len of map"))
 		}
 	case "cap":
